@@ -104,6 +104,8 @@ type LockAnalysis struct {
 	// Deferred literal: releases of locks acquired by the parent are expected.
 	IsDeferredLit bool
 	IsGoLit       bool
+	// EntryHeld: locks held by every caller at every call site (helpers).
+	EntryHeld map[string]bool
 }
 
 type lockAnalyzer struct {
@@ -410,12 +412,12 @@ func (la *lockAnalyzer) analyze(name string, body *ast.BlockStmt, deferredLit, g
 }
 
 // analyzeFunc analyses a declared function and every literal nested in it.
-func (la *lockAnalyzer) analyzeFunc(fd *ast.FuncDecl, name string) []*LockAnalysis {
+func (la *lockAnalyzer) analyzeFunc(fd *ast.FuncDecl, name string, entryHeld map[string]bool) []*LockAnalysis {
 	var out []*LockAnalysis
 	if fd.Body == nil {
 		return nil
 	}
-	top := la.analyze(name, fd.Body, false, false, nil)
+	top := la.analyze(name, fd.Body, false, false, entryHeld)
 	out = append(out, top)
 	n := 0
 	var walk func(node ast.Node, parent *LockAnalysis)
@@ -488,13 +490,12 @@ func (c *Ctx) LockPairing(rule, rel string, tokens []string) map[string][]*LockA
 			c.Unk(rule, rel+"."+t, token.NoPos, "token channel field not found")
 		}
 	}
-	all := map[string][]*LockAnalysis{}
+	all := la.analyzePackage(c, rel)
 	for _, fn := range c.Funcs(rel) {
 		if fn.Decl == nil {
 			continue
 		}
-		as := la.analyzeFunc(fn.Decl, fn.Name)
-		all[fn.Name] = as
+		as := all[fn.Name]
 		for _, a := range as {
 			leaks := map[token.Pos][]LockFinding{}
 			for _, f := range a.Findings {
@@ -563,13 +564,7 @@ func (c *Ctx) LockAnalyses(rel string, tokens []string) map[string][]*LockAnalys
 			la.tokens[v] = true
 		}
 	}
-	all := map[string][]*LockAnalysis{}
-	for _, fn := range c.Funcs(rel) {
-		if fn.Decl != nil {
-			all[fn.Name] = la.analyzeFunc(fn.Decl, fn.Name)
-		}
-	}
-	return all
+	return la.analyzePackage(c, rel)
 }
 
 // NoBlockingWhileHolding: at every blocking construct (channel send/receive,
@@ -694,4 +689,142 @@ func insideSelectComm(body ast.Node, n ast.Node) bool {
 		return !found
 	})
 	return found
+}
+
+// analyzePackage analyses every function of the package; then, for every
+// unexported function whose callers are all visible, re-analyses it with the
+// locks held at ALL of its call sites as held on entry (the "caller holds the
+// lock" convention of extracted helpers). Locks are named by their receiver
+// path; a caller-held lock keeps the caller's spelling, which equals the
+// callee's when both use the same receiver name — otherwise matching is by
+// the final field name (rules test held locks by suffix).
+func (la *lockAnalyzer) analyzePackage(c *Ctx, rel string) map[string][]*LockAnalysis {
+	all := map[string][]*LockAnalysis{}
+	fns := c.Funcs(rel)
+	byObj := map[*types.Func]*Fn{}
+	for _, fn := range fns {
+		if fn.Decl != nil {
+			all[fn.Name] = la.analyzeFunc(fn.Decl, fn.Name, nil)
+			byObj[fn.Obj] = fn
+		}
+	}
+	for round := 0; round < 2; round++ {
+		callerHeld := map[*types.Func]map[string]bool{}
+		unknown := map[*types.Func]bool{}
+		for _, as := range all {
+			for _, a := range as {
+				ownInspect(a.Body, func(n ast.Node) bool {
+					switch n := n.(type) {
+					case *ast.CallExpr:
+						var obj *types.Func
+						switch f := ast.Unparen(n.Fun).(type) {
+						case *ast.SelectorExpr:
+							obj, _ = la.pkg.TypesInfo.ObjectOf(f.Sel).(*types.Func)
+						case *ast.Ident:
+							obj, _ = la.pkg.TypesInfo.ObjectOf(f).(*types.Func)
+						}
+						if obj == nil || byObj[obj] == nil || obj.Exported() {
+							return true
+						}
+						h, ok := a.HeldAt[n]
+						if !ok || a.IsGoLit && false {
+							unknown[obj] = true
+							return true
+						}
+						if cur, seen := callerHeld[obj]; !seen {
+							cp := map[string]bool{}
+							for k := range h {
+								cp[k] = true
+							}
+							callerHeld[obj] = cp
+						} else {
+							for k := range cur {
+								if !heldSuffix(h, k) {
+									delete(cur, k)
+								}
+							}
+						}
+					case *ast.GoStmt, *ast.DeferStmt:
+						// a helper started with go runs without the caller's locks; deferred calls run at exit
+						var call *ast.CallExpr
+						if g, ok := n.(*ast.GoStmt); ok {
+							call = g.Call
+						} else {
+							call = n.(*ast.DeferStmt).Call
+						}
+						switch f := ast.Unparen(call.Fun).(type) {
+						case *ast.SelectorExpr:
+							if obj, ok := la.pkg.TypesInfo.ObjectOf(f.Sel).(*types.Func); ok {
+								unknown[obj] = true
+							}
+						case *ast.Ident:
+							if obj, ok := la.pkg.TypesInfo.ObjectOf(f).(*types.Func); ok {
+								unknown[obj] = true
+							}
+						}
+					case *ast.SelectorExpr, *ast.Ident:
+						// function used as a value: callers unknown (call positions are handled above, before descending)
+					}
+					return true
+				})
+			}
+		}
+		changed := false
+		for obj, held := range callerHeld {
+			if unknown[obj] || len(held) == 0 {
+				continue
+			}
+			fn := byObj[obj]
+			// normalise lock names to the callee's receiver spelling: keep only the last path element,
+			// prefixed by the callee's receiver name when it has one
+			norm := map[string]bool{}
+			recvName := ""
+			if fn.Decl.Recv != nil && len(fn.Decl.Recv.List) == 1 && len(fn.Decl.Recv.List[0].Names) == 1 {
+				recvName = fn.Decl.Recv.List[0].Names[0].Name
+			}
+			for k := range held {
+				last := k
+				if i := strings.LastIndex(k, "."); i >= 0 {
+					last = k[i+1:]
+				}
+				if recvName != "" {
+					norm[recvName+"."+last] = true
+				} else {
+					norm["caller."+last] = true
+				}
+			}
+			prev := all[fn.Name]
+			same := len(prev) > 0 && len(prev[0].EntryHeld) == len(norm)
+			if same {
+				for k := range norm {
+					if !prev[0].EntryHeld[k] {
+						same = false
+					}
+				}
+			}
+			if !same {
+				as := la.analyzeFunc(fn.Decl, fn.Name, norm)
+				as[0].EntryHeld = norm
+				all[fn.Name] = as
+				changed = true
+			}
+		}
+		if !changed {
+			break
+		}
+	}
+	return all
+}
+
+func heldSuffix(h map[string]bool, key string) bool {
+	last := key
+	if i := strings.LastIndex(key, "."); i >= 0 {
+		last = key[i:]
+	}
+	for k := range h {
+		if k == key || strings.HasSuffix(k, last) {
+			return true
+		}
+	}
+	return false
 }
